@@ -50,7 +50,9 @@ static void
 h_begin(const char *kind, double t)
 {
 	hist_bi = 0U;
-	h_printf("{\"s\":%lu,\"t\":%.6f,\"k\":\"%s\"", ++hist_seq, t, kind);
+	/* %.17g round-trips a double exactly: the oracle must see the very
+	 * same loop time the daemon saw (strict < against integral seconds) */
+	h_printf("{\"s\":%lu,\"t\":%.17g,\"k\":\"%s\"", ++hist_seq, t, kind);
 }
 
 static void
@@ -103,7 +105,7 @@ h_dbl(const char *key, double v)
 	if (v > 1e29) {
 		h_printf(",\"%s\":1e30", key);
 	} else {
-		h_printf(",\"%s\":%.6f", key, v);
+		h_printf(",\"%s\":%.17g", key, v);
 	}
 }
 
